@@ -337,6 +337,11 @@ class Gen:
         elif guard_kind == "flag":
             counter = "stop"
             init.append(("assign", "stop", [(F(1), const(0))], ("true",), "stop"))
+        # a loop constant that conditions may test (folded by the ConstantsTransformer; branches may become constant)
+        self.consts = {}
+        if pf.get("const_flags", r.random() < 0.3):
+            self.consts["k"] = F(r.choice([0, 1, 1, 2]))
+            init.append(("assign", "k", [(F(1), const(self.consts["k"]))], ("true",), "k"))
         r.shuffle(init)
 
         self.fin, self.num, self.fvals, self.fkind = fin, num, fvals, fkind
@@ -380,7 +385,7 @@ class Gen:
             self.fvals["stop"] = [F(0), F(1)]
         else:
             guard = ("true",)
-        T = {"vars": sorted(set(fin + num + ([counter] if counter else []))),
+        T = {"vars": sorted(set(fin + num + ([counter] if counter else []) + list(self.consts))),
              "s0": s0, "init": init, "guard": guard, "body": body}
         self.types = {"c": self.fvals["c"]} if guard_kind == "counter" else None
         return T, sorted(set(params))
@@ -474,6 +479,8 @@ class Gen:
         op = r.choice(["==", "==", "<", ">", "<=", ">=", "/="] if self.profile.get("neq", False)
                       else ["==", "==", "<", ">", "<=", ">="])
         atom = ("atom", [(F(1), V(f))], op, const(r.choice(vals)))
+        if getattr(self, "consts", None) and r.random() < 0.2:
+            atom = ("atom", [(F(1), V("k"))], r.choice(["==", "==", ">", "<="]), const(r.choice([0, 1, 2])))
         if depth < 1 and r.random() < 0.3:
             c2 = self.cond(depth + 1)
             k = r.choice(["and", "or", "not"])
